@@ -209,6 +209,7 @@ pub fn op_kind(op: &Op) -> &'static str {
             EnvOp::Accrue(..) => "env.accrue",
             EnvOp::Donate(..) => "env.donate",
             EnvOp::NoRedel(..) => "env.noredel",
+            EnvOp::NoUndel(..) => "env.noundel",
             EnvOp::Oracle(..) => "env.oracle",
             EnvOp::Swap(..) => "env.swap",
             EnvOp::Legacy(..) => "env.legacy",
@@ -731,6 +732,20 @@ pub fn check_step(cx: &StepCtx) -> Vec<Violation> {
                 if h.time == post.time && expect != und {
                     out.push(v("C02", "undelegated-ne-history", format!("{}: undelegated {} but batch {} records {}", kind, und, h.id, expect)));
                     out.push(v("C08", "undelegated-ne-history", format!("{}: undelegated {} but batch {} records {}", kind, und, h.id, expect)));
+                }
+            }
+        }
+        // a batch written to the history in this step has been undelegated on the chain: the
+        // unbonding queue grew by exactly what the entry records (read off the chain, not off the
+        // messages: an Undelegate that was refused and swallowed leaves nothing there)
+        for h in post.hist.iter() {
+            if !pre.hist.iter().any(|x| x.id == h.id) {
+                let expect = floor_mul(h.b_amt, h.b_applied) + floor_mul(h.s_amt, h.s_applied);
+                let grew = post.unbonding_total.saturating_sub(pre.unbonding_total);
+                if grew != expect || post.delegated + expect != pre.delegated {
+                    for p in ["C07", "C02", "C08"] {
+                        out.push(v(p, "batch-closed-not-undelegated", format!("{}: batch {} records {} undelegated, the chain's unbonding queue grew by {} and delegations fell by {}", kind, h.id, expect, grew, pre.delegated.saturating_sub(post.delegated))));
+                    }
                 }
             }
         }
@@ -1405,6 +1420,10 @@ fn c09_deep(cx: &StepCtx, out: &mut Vec<Violation>) {
     let booked = post.raw[2] + post.raw[3];
     // excluded by the property: a validator set slashed to zero
     if post.delegated == 0 && booked > 0 {
+        return;
+    }
+    // outside E2: the staking module refuses undelegations (unbonding-entry limit reached)
+    if !c.no_undelegate.is_empty() {
         return;
     }
     // zero-backed pool (D6): tokens outstanding against a pool of zero, before or after the
